@@ -31,7 +31,7 @@ def run(rep, idx, tier):
         return
     loops = [L for L in c.t.loops.values() if L.kind == 'seq' and c.norm(L.seq) == ('name', 'self')]
     if len(loops) != 1:
-        rep.bad("C11.4", site, "loop over the register's fields (`for path, field in self`)", f"found {len(loops)} such loops")
+        rep.unk("C11.4", site, "loop over the register's fields (`for path, field in self`)", f"found {len(loops)} such loops")
         return
     L = loops[0]
     field = c.norm(('sub', ('sub', ('name', 'self'), ('idx', L.id)), ('const', 1)))
